@@ -36,7 +36,8 @@ def design_configs(tier, schedulers=("eager",), with_cond=False, n_random=None, 
     base = 1000 if tier == "quick" else 5000 + 100000 * int(os.environ.get("VERIF_SEED", "0"))
     for i in range(n_random):
         for s in schedulers:
-            cfgs.append({"design": f"random:{base + i}", "scheduler": s, "relations": relations})
+            # the round-robin scheduler is only specified for components without ready dependencies: no nested bodies
+            cfgs.append({"design": f"random:{base + i}", "scheduler": s, "relations": relations, "nested": s != "rr"})
     return cfgs
 
 
@@ -52,12 +53,12 @@ def construct_only(spec):
     return Oracle(Unbuilt(d, spec))
 
 
-def wellformed_random_spec(seed, relations=True, gen=None):
+def wellformed_random_spec(seed, relations=True, gen=None, nested=True):
     """Seeded random DesignSpec that the spec-level oracle classifies as well-formed (up to 24 sub-seeds are
     tried; raw random specs are ill-formed more often than not and are exercised by C11)."""
     from contracts.c11 import well_formed
 
-    gen = gen or (lambda rng: family.random_spec(rng, allow_relations=relations))
+    gen = gen or (lambda rng: family.random_spec(rng, allow_relations=relations, allow_nested=nested))
     for j in range(24):
         rng = random.Random(seed * 64 + j)
         spec = gen(rng)
@@ -85,7 +86,7 @@ def _same_transaction_relation(o):
 def spec_of(cfg):
     name = cfg["design"]
     if name.startswith("random:"):
-        spec = wellformed_random_spec(int(name.split(":")[1]), cfg.get("relations", True))
+        spec = wellformed_random_spec(int(name.split(":")[1]), cfg.get("relations", True), nested=cfg.get("nested", True))
         if spec is None:
             raise Skip("no well-formed design found for this seed")
     else:
